@@ -3,6 +3,9 @@ package main
 import (
 	"bytes"
 	"fmt"
+	"io"
+	"net"
+	"runtime"
 	"time"
 
 	"golang.org/x/crypto/chacha20poly1305"
@@ -14,12 +17,60 @@ import (
 
 func init() { register("C05", runC05) }
 
+// c05Stranger connects to router B as somebody nobody knows and sends one malformed clear-text
+// frame where the first handshake message is expected; B's link setup fails.  Returns the kind.
+func c05Stranger(c *Ctx, B *rnode) string {
+	kinds := []string{"switch-block-beyond-frame", "message-beyond-frame", "short", "wrong-version"}
+	kind := kinds[c.Rng.IntN(len(kinds))]
+	n := []int{100, 330, 500, 900, 1400}[c.Rng.IntN(5)]
+	fr := randBytes(c, n)
+	fr[0] = 1
+	fr[48] = 0
+	switch kind {
+	case "switch-block-beyond-frame":
+		fr = fr[:100]
+		fr[48] = 255
+	case "message-beyond-frame":
+		fr[49], fr[50] = 0x13, 0x88 // message length 5000
+	case "short":
+		fr = fr[:4+c.Rng.IntN(60)]
+	default:
+		fr[0] = byte(2 + c.Rng.IntN(200))
+	}
+	c1, c2 := net.Pipe()
+	done := make(chan struct{})
+	go func() {
+		defer close(done)
+		recoverPanic(func() { _, _ = B.pe.VerifSetupLink(c2, false) })
+	}()
+	go func() { _, _ = io.Copy(io.Discard, c1) }() // the router speaks first: read what it says
+	wire := make([]byte, 2+len(fr))
+	wire[0], wire[1] = byte(len(wire)>>8), byte(len(wire))
+	copy(wire[2:], fr)
+	_ = c1.SetWriteDeadline(time.Now().Add(time.Second))
+	_, _ = c1.Write(wire)
+	select {
+	case <-done:
+	case <-time.After(2 * time.Second):
+	}
+	_ = c1.Close()
+	_ = c2.Close()
+	select {
+	case <-done:
+	case <-time.After(2 * time.Second):
+	}
+	return kind
+}
+
 func runC05(c *Ctx) error {
 	c.Res.Rule = "two real routers joined by a real link (real handshake, link reader/writer workers) over an in-memory connection relayed by the harness; frames of all message types and sizes (1..9000 bytes, a few near the 65535 link maximum in the thorough tier) are handed to the link while a wire adversary applies fault sequences: " +
 		"bit flips in the length prefix / header / ciphertext / tag, truncation, duplication, swapping, dropping, injection of random and crafted chunks (including chunks shorter than header+MAC); observed: frames reaching the remote frame handler, link closed, wire capture; " +
 		"non-trivial = scenario with at least one fault; distinct = distinct (fault kinds and positions, frame count)"
 	nScen := c.Pick(40, 300)
+	fullProcs := runtime.GOMAXPROCS(0)
+	defer runtime.GOMAXPROCS(fullProcs)
 	for si := 0; si < nScen; si++ {
+		runtime.GOMAXPROCS(fullProcs)
 		p, err := newLinkedPair(relayStore, relayStore, nil, nil)
 		if err != nil {
 			if p != nil {
@@ -37,6 +88,22 @@ func runC05(c *Ctx) error {
 		nFaults := c.Rng.IntN(4)
 		if si%7 == 0 {
 			nFaults = 0
+		}
+		// "hold" scenarios: before the frames are handed over, strangers connect to the receiving
+		// router and send one malformed clear-text frame each (their setups fail, nothing visible
+		// happens); the receiver's frame handler then does not pick frames up one by one but lets them
+		// queue, so that several received frames are alive at the same time.  One processor, so that
+		// the buffer pools hand out recycled buffers in a fixed order.
+		hold := si%3 == 1
+		if hold {
+			runtime.GOMAXPROCS(1)
+			for k, n := 0, 1+c.Rng.IntN(3); k < n; k++ {
+				kind := c05Stranger(c, p.B)
+				c.Count("stranger:" + kind)
+			}
+			if c.Rng.IntN(2) == 0 {
+				nFaults = 0
+			}
 		}
 		kinds := []string{"flip-len", "flip-hdr", "flip-ct", "flip-tag", "dup", "swap", "drop", "inject-random", "inject-short", "truncate", "replay-earlier", "gap-replay", "gap-replay"}
 		for k := 0; k < nFaults; k++ {
@@ -121,6 +188,9 @@ func runC05(c *Ctx) error {
 		if c.Thorough() {
 			sizes = append(sizes, 9000)
 		}
+		if hold {
+			sizes = [][]int{{1, 20, 200, 300}, {700, 1200, 1300}, {1, 20, 200, 1200}}[c.Rng.IntN(3)]
+		}
 		for k := 0; k < nFrames+3; k++ { // the last three are sentinels after the faulted range
 			sz := sizes[c.Rng.IntN(len(sizes))]
 			if c.Thorough() && c.Rng.IntN(40) == 0 {
@@ -142,6 +212,35 @@ func runC05(c *Ctx) error {
 		var delivered [][]byte
 		deadline := time.After(time.Duration(c.Pick(400, 800)) * time.Millisecond)
 		lastSentinel := handed[len(handed)-1]
+		if hold {
+			// let the frames queue up at the handler, then look at all of them while all are alive
+			for t0 := time.Now(); time.Since(t0) < time.Duration(c.Pick(400, 800))*time.Millisecond; {
+				if len(p.B.peerIn) >= len(handed) || p.lb.IsClosing() {
+					break
+				}
+				time.Sleep(2 * time.Millisecond)
+			}
+			time.Sleep(5 * time.Millisecond)
+			var alive []frame.Frame
+		collect:
+			for {
+				select {
+				case f := <-p.B.peerIn:
+					alive = append(alive, f)
+				default:
+					break collect
+				}
+			}
+			for _, f := range alive {
+				d, _ := f.FrameDataWithMargins(0, 0)
+				delivered = append(delivered, append([]byte(nil), d...))
+			}
+			for _, f := range alive {
+				f.ReturnToPool()
+			}
+			c.Count(fmt.Sprintf("held-frames:%d", len(alive)))
+			deadline = time.After(time.Millisecond)
+		}
 	wait:
 		for {
 			select {
@@ -259,6 +358,7 @@ func runC05(c *Ctx) error {
 			c.Sample(rep)
 		}
 	}
+	runtime.GOMAXPROCS(fullProcs)
 	// 100 consecutive bad frames close the link
 	{
 		p, err := newLinkedPair(relayStore, relayStore, nil, nil)
